@@ -94,10 +94,8 @@ m = {
  ],
  "checks": checks,
  "not_applicable": na,
- "notes": "All checks: exit 0 held / exit 1 + VIOLATION line / exit 2 inconclusive (build failure, health assertion, watchdog). VERIF_SEED and VERIF_TIER are honoured. Known findings live in /verif/known_findings.json.",
+ "notes": "All checks: exit 0 held / exit 1 + VIOLATION line / exit 2 inconclusive (build failure, health assertion, watchdog). VERIF_SEED and VERIF_TIER are honoured. Known findings live in /verif/known_findings.json and /verif/known_findings.d/CNN.json (committed, never written at run time). not_applicable is empty: all 20 properties are claimed and decided by generated-input search (DESIGN.md section 6 lists the parts of statements this family cannot reach).",
 }
-if not na:
-    del m["not_applicable"]
 json.dump(m, open(os.path.join(ROOT, "MANIFEST.json"), "w"), indent=1)
 try:
     sys.path.insert(0, "/opt/veriftools/pyvenv/lib/python3.11/site-packages")
